@@ -196,6 +196,33 @@ int main(int argc, char **argv)
         printf("{\"type\":\"control\",\"racy\":%ld}\n", racy);
         return 0;
     }
+    if (!strcmp(vh_arg_mode, "first-init")) {
+        /* The very first library calls of this process are made concurrently: nothing (not even the back-end
+           probe) has run before the threads are released, so one-time initialisation of any hidden global
+           state happens under contention.  All threads do identical work, so their transcripts must be
+           identical to each other and to the same work repeated sequentially afterwards. */
+        int bad = 0;
+        for (i = 0; i < NT; ++i) { TA[i].tid = i; TA[i].workload = 2; TA[i].seed = vh_seed * 977 + 5; TA[i].got.cap = TA[i].want.cap = 1 << 16; TA[i].got.out = malloc(1 << 16); TA[i].want.out = malloc(1 << 16);
+                                   TA[i].got.n = TA[i].want.n = 0; TA[i].got.rets = TA[i].want.rets = 0; TA[i].got.nret = TA[i].want.nret = 0; vh_rng_seed(&TA[i].yr, vh_seed, 0x1A, (uint64_t)i); }
+        pthread_barrier_init(&bar, NULL, (unsigned)NT);
+        for (i = 0; i < NT; ++i) pthread_create(&th[i], NULL, thread_main, &TA[i]);
+        for (i = 0; i < NT; ++i) pthread_join(th[i], NULL);
+        work(&TA[0], &TA[0].want, 0);
+        for (i = 0; i < NT; ++i) {
+            if (TA[i].got.n != TA[0].want.n || TA[i].got.rets != TA[0].want.rets || memcmp(TA[i].got.out, TA[0].want.out, TA[i].got.n)) bad++;
+            VH_COUNT("thread_runs", 1); VH_COUNT("library_calls_in_threads", TA[i].got.nret);
+        }
+        if (bad) {
+            char d[200]; snprintf(d, sizeof(d), "{\"workload\":\"first-init\",\"threads_differing_from_sequential\":%d,\"threads\":%d}", bad, NT);
+            vh_violation("C18:first-concurrent-init:thread-result-differs-from-sequential", d, d);
+        }
+        if (vh_distinct(vh_seed * 31 + 7)) VH_COUNT("distinct_nontrivial_repetitions", 1);
+        VH_COUNT("repetitions_first-concurrent-init", 1);
+        VH_MAXC("max_threads_simultaneously_inside_library_calls", in_lib_max);
+        *vh_counter_ref("max_threads") = (uint64_t)NT;
+        vh_finish();
+        return 0;
+    }
     for (i = 0; i < CIPH_N; ++i) { maxbe[i] = vh_max_backend(&vh_ciphers[i]); if (maxbe[i] < 0) { printf("{\"type\":\"inconclusive\",\"reason\":\"cannot identify back end\"}\n"); return 2; } }
     for (i = 0; i < NT; ++i) { TA[i].ch = malloc(sizeof(chist)); TA[i].ph = malloc(sizeof(phist)); TA[i].got.cap = TA[i].want.cap = 1 << 18; TA[i].got.out = malloc(1 << 18); TA[i].want.out = malloc(1 << 18); }
     for (rep = vh_first + vh_shard; rep < vh_first + reps; rep += vh_nshards) {
